@@ -3181,6 +3181,7 @@ static struct jbl_node* _jbl_merge_patch_node(
             } else {
               if (node->type == JBV_STR) {
                 free((void*) node->vptr);
+                node->vptr = 0; // The recursive call frees the string of a non-object target as well
               }
               struct jbl_node *src = _jbl_merge_patch_node(node, patch, 0, rcp);
               if (src != node) {
